@@ -56,6 +56,17 @@ pub fn k2() -> Vec<u8> {
     encode(&m).0
 }
 
+/// Replace the plain mp4a sample entry of the `track_index`-th trak by the QuickTime form: sound description v1 with the
+/// esds inside a `wave` wrapper (logical content unchanged).
+pub fn wrap_mp4a_in_wave(nodes: &mut [Node], track_index: usize) {
+    let esds_v = Esds { version: 0, flags: 0, es_id: 2, object_type_indication: 0x40, stream_type: 5, up_stream: false, buffer_size_db: 0x1234, max_bitrate: 96000, avg_bitrate: 64000, audio_object_type: 5, freq_index: 4, frequency: 0, chan_conf: 1, len_bytes: 4 };
+    let audio = Audio { data_reference_index: 1, channelcount: 1, samplesize: 16, samplerate: 44100 << 16, qt_version: 1 };
+    let moov = nodes.iter_mut().find(|n| &n.cc == b"moov").unwrap();
+    let trak = moov.children_mut().unwrap().iter_mut().filter(|n| &n.cc == b"trak").nth(track_index).unwrap();
+    let stsd_n = trak.child_mut(b"mdia").unwrap().child_mut(b"minf").unwrap().child_mut(b"stbl").unwrap().child_mut(b"stsd").unwrap();
+    stsd_n.children_mut().unwrap()[0] = mp4a_wave(&audio, &esds_v);
+}
+
 /// K3: VP9 + mp4a with a `wave` wrapper (QuickTime sound description v1) and a QuickTime-style (version-less) meta.
 pub fn k3() -> Vec<u8> {
     let t1 = LTrack::simple(1, Codec::Vp9, 30, samples(2), vec![1, 1]);
@@ -63,14 +74,8 @@ pub fn k3() -> Vec<u8> {
     let mut m = LMovie::new(1000, vec![t1, t2]);
     m.moov_extra = vec![itunes_meta(false)];
     m.mdat_first = true;
-    // replace the plain mp4a entry of track 2 by the wave-wrapped one
     let mut nodes = nodes(&m);
-    let esds_v = Esds { version: 0, flags: 0, es_id: 2, object_type_indication: 0x40, stream_type: 5, up_stream: false, buffer_size_db: 0x1234, max_bitrate: 96000, avg_bitrate: 64000, audio_object_type: 5, freq_index: 4, frequency: 0, chan_conf: 1, len_bytes: 4 };
-    let audio = Audio { data_reference_index: 1, channelcount: 1, samplesize: 16, samplerate: 44100 << 16, qt_version: 1 };
-    let moov = nodes.iter_mut().find(|n| &n.cc == b"moov").unwrap();
-    let trak2 = moov.children_mut().unwrap().iter_mut().filter(|n| &n.cc == b"trak").nth(1).unwrap();
-    let stsd_n = trak2.child_mut(b"mdia").unwrap().child_mut(b"minf").unwrap().child_mut(b"stbl").unwrap().child_mut(b"stsd").unwrap();
-    stsd_n.children_mut().unwrap()[0] = mp4a_wave(&audio, &esds_v);
+    wrap_mp4a_in_wave(&mut nodes, 1);
     serialize(&nodes).0
 }
 
